@@ -10,6 +10,10 @@ from fractions import Fraction
 from .lexer import CParseError, ast_to_str
 
 
+class PolyZeroDivision(CParseError):
+    """The text divides by a literal zero (0.0/0.0 -> NaN at run time)."""
+
+
 class Poly:
     __slots__ = ("terms", "is_int")
 
@@ -73,7 +77,7 @@ class Poly:
 
     def div(self, o):
         if o.is_zero():
-            raise CParseError("division by the zero polynomial")
+            raise PolyZeroDivision("division by the zero polynomial")
         if self.is_int and o.is_int and self.is_const() and o.is_const():
             a, b = self.const_value(), o.const_value()
             q = abs(a) // abs(b)
